@@ -214,7 +214,7 @@ func (c *Ctx) frameMaxObs() []core.Ob {
 
 func init() {
 	Props["C03"] = PropDef{
-		Explanation: "R-TLG interval + taint forward dataflow on go/ssa with branch refinement, symbolic cap/len bounds and interprocedural summaries; R-PANIC triage; T-DISPATCH; R-PROGRESS; R-GUARD sign-check-before-success and string indexes; R-RAWREAD; R-UNKTAG list element tag refused also for the empty list (R-TLG case split on the tag byte, feasible edges). Decided: Every integer decoded from the input in nbt and nbt/dynbt is proven in range before make / MakeSlice / slice bound / index / CopyN / divisor / loop bound / fixed-width accessor; sign tests lie on every path to a success exit; element loops make progress; reads are full reads and a byte adapter never invents a byte; explicit panics are triaged; a list header with an unknown element tag is refused on every path, also when no element is decoded. A structural necessary condition of totality, not a proof of it.",
+		Explanation: "R-TLG interval + taint forward dataflow on go/ssa with branch refinement, symbolic cap/len bounds and interprocedural summaries; R-PANIC triage; T-DISPATCH; R-PROGRESS; R-GUARD sign-check-before-success and string indexes; R-RAWREAD; R-UNKTAG list element tag refused also for the empty list (R-TLG case split on the tag byte, feasible edges); R-UNKTAG non-empty TAG_End list refused; R-REFLKIND interface targets have no methods; R-PANIC nil pointer destination refused. Decided: Every integer decoded from the input in nbt and nbt/dynbt is proven in range before make / MakeSlice / slice bound / index / CopyN / divisor / loop bound / fixed-width accessor; sign tests lie on every path to a success exit; element loops make progress; reads are full reads and a byte adapter never invents a byte; explicit panics are triaged; a list header with an unknown element tag is refused on every path, also when no element is decoded. A structural necessary condition of totality, not a proof of it.",
 		Run: func(c *Ctx) []core.Ob {
 			in := pkgPred("nbt", "nbt/dynbt")
 			obs := c.TLGObs(in, in, true)
@@ -237,7 +237,7 @@ func init() {
 		},
 	}
 	Props["C08"] = PropDef{
-		Explanation: "R-TLG over every decoder root of the module; R-PANIC reachability triage; nil-guard of func-typed fields; guarded NewBitStorage calls; R-GUARD string indexes; T-PALCFG width bounds. Decided: Every peer-derived length/count/index reaching a crash sink is proven in range on all paths in the decoders of the enumerated packages; explicit panics reachable from decoder roots are triaged; palette widths from the wire never exceed a machine word. Implicit panics outside these classes are not decided.",
+		Explanation: "R-TLG over every decoder root of the module; R-PANIC reachability triage; nil-guard of func-typed fields; guarded NewBitStorage calls; R-GUARD string indexes; T-PALCFG width bounds; R-TLG sinks armed in the bot's packet handlers. Decided: Every peer-derived length/count/index reaching a crash sink is proven in range on all paths in the decoders of the enumerated packages; explicit panics reachable from decoder roots are triaged; palette widths from the wire never exceed a machine word. Implicit panics outside these classes are not decided.",
 		Run: func(c *Ctx) []core.Ob {
 			armed := pkgPred("net/packet", "level", "chat", "registry", "server/command", "net", "nbt", "nbt/dynbt")
 			// ... and the bot's packet handlers themselves (functions of bot/... that are handed the received
